@@ -2,7 +2,7 @@
    other than the explicitly stated machine-arithmetic regions). *)
 From Coq Require Import List Bool ZArith NArith QArith Qround Lqa Lia Permutation.
 From Coq Require Import Sorted.
-From NV.C17 Require Import Model ModelMfx ProofsPerm ProofsComb ProofsSign ProofsTwo ProofsVand ProofsStat ProofsMfx.
+From NV.C17 Require Import Model ModelMfx ModelVar ProofsPerm ProofsComb ProofsSign ProofsTwo ProofsVand ProofsStat ProofsMfx ProofsVar.
 Import ListNotations.
 Close Scope Q_scope.
 
@@ -349,6 +349,50 @@ Theorem estimate_mean_effect_antisymmetric : forall Y sd,
   em_effect (map Qopp Y) sd == - em_effect Y sd.
 Proof. exact em_effect_flip. Qed.
 Print Assumptions estimate_mean_effect_antisymmetric.
+
+(* ================================================================ estimate_varatio (onesample.py) *)
+(* the random-effects variance (and the variance ratio) returned after ANY
+   number of iterations is an even function of the data: negating every
+   subject's effect changes nothing (a variance has no sign to flip).  Leibniz
+   equality: the model keeps the running variance in canonical form. *)
+Theorem varatio_random_even : forall sred niter Y sd,
+  vr_random sred niter (map Qopp Y) sd = vr_random sred niter Y sd.
+Proof. exact vr_random_even. Qed.
+Print Assumptions varatio_random_even.
+
+Theorem varatio_ratio_even : forall sred niter df Y sd,
+  vr_ratio sred niter df (map Qopp Y) sd = vr_ratio sred niter df Y sd.
+Proof. exact vr_ratio_even. Qed.
+Print Assumptions varatio_ratio_even.
+
+(* adding one constant to every subject's effect leaves the estimate unchanged,
+   for every number of iterations, every sd (zero and negative weights' worth
+   included: when no subject has a positive weight the update does not look at
+   the data at all) and every Sreduction; Y and sd of the same length, as the
+   source requires (W.shape = Y.shape) *)
+Theorem varatio_random_shift_invariant : forall c sred niter Y sd,
+  length sd = length Y ->
+  vr_random sred niter (shiftq c Y) sd = vr_random sred niter Y sd.
+Proof. exact vr_random_shift. Qed.
+Print Assumptions varatio_random_shift_invariant.
+
+(* with niter = 0 the estimate is the unbiased sample variance minus
+   Sreduction * (smallest first-level variance) *)
+Theorem varatio_no_iteration_is_sample_variance : forall sred Y sd,
+  (vr_random sred 0 Y sd == vr_ssd Y (qmean Y) / (qlen Y - 1) - qminl (vr_S sd) * sred)%Q.
+Proof. exact vr_random_0. Qed.
+Print Assumptions varatio_no_iteration_is_sample_variance.
+
+(* non-vacuity: the estimate does depend on the data (doubling the spread
+   changes it) while the flipped and the shifted sample give the same value;
+   a variance taken about 0 instead of the mean would not be shift invariant *)
+Example varatio_depends_on_spread_only :
+  let s := (99 # 100)%Q in let sd := [1; 1; 2]%Q in
+  Qeq_bool (vr_random s 2 [0; 1; 3]%Q sd) (vr_random s 2 [0; 2; 6]%Q sd) = false /\
+  Qeq_bool (vr_random s 2 [0; -1; -3]%Q sd) (vr_random s 2 [0; 1; 3]%Q sd) = true /\
+  Qeq_bool (vr_random s 2 [5; 6; 8]%Q sd) (vr_random s 2 [0; 1; 3]%Q sd) = true /\
+  Qeq_bool (vr_ssd [5; 6; 8]%Q 0) (vr_ssd [0; 1; 3]%Q 0) = false.
+Proof. vm_compute. repeat split; reflexivity. Qed.
 
 (* non-vacuity: a fit that resumes from existing estimates would violate it *)
 Example mfx_warm_start_would_depend_on_history :
